@@ -166,6 +166,41 @@ Theorem C27_split_normal_older : forall groups tss s k e',
 Proof. exact BatchSplitProofs.batch_split_normal_older. Qed.
 Print Assumptions C27_split_normal_older.
 
+(* the link to the system model the correspondence replays (Begin / Modify* / Commit per internal
+   transaction): a batch transaction reads nothing, so Sys.txn_commit never refuses it, and the
+   memtable after the batch's commits is run_batch at the timestamps the commits used — in
+   managed mode the given ones, in normal mode nextTxnTs, nextTxnTs + 1, ... (increasing) *)
+Theorem C27_batch_commit_step : forall s t rts g cts,
+  let x := SysProofs.modifies (wb_txn rts) g in
+  let ts := if s_managed s then cts else s_next s in
+  let r := txn_commit s t x cts in
+  fst (fst r) = 0 /\
+  l_mt (s_db (snd r)) = fold_left mt_put (group_entries g ts) (l_mt (s_db s)) /\
+  s_managed (snd r) = s_managed s /\
+  s_next (snd r) = (if s_managed s || (match x_pend x with [] => true | _ => false end)
+                    then s_next s else s_next s + 1).
+Proof. exact BatchSplitProofs.wb_commit_step. Qed.
+Print Assumptions C27_batch_commit_step.
+
+Theorem C27_batch_is_sys_commits : forall groups s t rts ctss,
+  l_mt (s_db (sys_batch s t rts groups ctss)) =
+  run_batch groups (sys_batch_tss s t rts groups ctss) (l_mt (s_db s)).
+Proof. exact BatchSplitProofs.sys_batch_memtable. Qed.
+Print Assumptions C27_batch_is_sys_commits.
+
+Theorem C27_batch_tss_managed : forall groups s t rts ctss,
+  s_managed s = true -> length groups = length ctss -> sys_batch_tss s t rts groups ctss = ctss.
+Proof. exact BatchSplitProofs.sys_batch_tss_managed. Qed.
+Print Assumptions C27_batch_tss_managed.
+
+Theorem C27_batch_tss_normal : forall groups s t rts ctss,
+  s_managed s = false -> length groups = length ctss ->
+  (forall g, In g groups -> x_pend (SysProofs.modifies (wb_txn rts) g) <> []) ->
+  sys_batch_tss s t rts groups ctss = count_from (s_next s) (length groups) /\
+  increasing (count_from (s_next s) (length groups)).
+Proof. exact BatchSplitProofs.sys_batch_tss_normal_increasing. Qed.
+Print Assumptions C27_batch_tss_normal.
+
 (* what is NOT invariant.  Normal mode: the stored versions depend on the cut (a WriteBatch is not
    atomic; the full key@version statement of (a) does not carry over) *)
 Theorem C27_split_normal_versions_refuted :
